@@ -201,13 +201,19 @@ func TestVerifC07(t *testing.T) {
 	// ---- expression constructs
 	for ci := range c07Constructs {
 		con := &c07Constructs[ci]
-		for extra := 0; extra <= 4; extra++ {
-			for above := 0; above <= 3; above++ {
+		// bounds of the placement dimensions (thorough: deeper in every dimension)
+		bExtra, bAbove, bPrefix, bPreceding, bSpaces := 4, 3, 5, 2, 3
+		if vThorough() {
+			bExtra, bAbove, bPrefix, bPreceding, bSpaces = 6, 4, 9, 4, 5
+		}
+		r.Bounds["placement"] = map[string]int{"extra_indentation": bExtra, "lines_above": bAbove, "prefix_characters": bPrefix, "preceding_placeholders": bPreceding, "blanks": bSpaces}
+		for extra := 0; extra <= bExtra; extra++ {
+			for above := 0; above <= bAbove; above++ {
 				for flow := 0; flow <= 1; flow++ {
 					for quote := 0; quote <= 5; quote++ {
-						for prefix := 0; prefix <= 5; prefix++ {
-							for preceding := 0; preceding <= 2; preceding++ {
-								for spaces := 0; spaces <= 3; spaces++ {
+						for prefix := 0; prefix <= bPrefix; prefix++ {
+							for preceding := 0; preceding <= bPreceding; preceding++ {
+								for spaces := 0; spaces <= bSpaces; spaces++ {
 									cs := c07StepCase(con, extra, above, flow, quote, prefix, preceding, spaces)
 									if cs == nil {
 										continue
